@@ -28,7 +28,7 @@ SHAPES = {
 QUICK_SHAPES = ['line4', 'grid3x2', 'gen3x2x2', 'gen3x0x2', 'gen0x2x0', 'gen2x2x2']
 KINDS = ['callable', 'list', 'ndarray', 'constant', 'lookup_rank', 'lookup_np_rank', 'lookup_3d', 'constant_tuple',
          'constant_list', 'callable_mixed', 'lookup_3d_reused', 'constant_subclass', 'callable_shift',
-         'lookup_3d_tuples', 'lookup_3d_mixed']
+         'lookup_3d_tuples', 'lookup_3d_mixed', 'lookup_3d_reassigned', 'callable_mapping']
 
 
 class PosConstant(Envs.ConstantGenerator):
@@ -90,6 +90,7 @@ class Harness:
         w.other.add_cell_component('keep', Envs.ConstantGenerator(42))
         w.other_snap = self.cn(w.other.cells)
         self._shared_gen = None
+        self._shared_gen2 = None
         w.cols = {}          # name -> (kind, expected values by id)   (insertion order = column order)
         w.bufs = {}          # name -> the caller's buffer (list / ndarray) for list/ndarray sources
         w.known_now = None
@@ -149,6 +150,23 @@ class Harness:
             return Envs.LookupGenerator(tuple(tuple(tuple(zs) for zs in ys) for ys in full)), vals, None
         if kind == 'lookup_3d_mixed':       # a list of tuples of lists
             return Envs.LookupGenerator([tuple(list(zs) for zs in ys) for ys in full]), vals, None
+        if kind == 'callable_mapping':
+            # a functor that is also a mapping (a memo table with a __call__): it is a generator like any other callable
+            class Memo(dict):
+                def __call__(self_, pos, cells):
+                    return f(ki, pos)
+            return Memo({(0, 0, 0): 'raw entry', 'size': -1}), vals, None
+        if kind == 'lookup_3d_reassigned':
+            # ONE generator object per world whose public `table` attribute is REPLACED by a new array before every
+            # further use
+            gen = getattr(self, '_shared_gen2', None)
+            if gen is None:
+                gen = self._shared_gen2 = Envs.LookupGenerator(np.array(full))
+                self._shared_uses2 = 0
+            else:
+                self._shared_uses2 += 1
+                gen.table = np.array(full) + 100000 * self._shared_uses2
+            return gen, [v + 100000 * self._shared_uses2 for v in vals], None
         if kind == 'lookup_3d_reused':
             # ONE generator object per world whose table is edited in place before every further use
             gen = self._shared_gen
